@@ -110,6 +110,8 @@ def run(R):
                          "the stored value exactly when the new one is smaller / larger")
     R.rule("C04.isnull", "an aggregator is NULL exactly when its running value is NULL (no comparison with a default value)")
     R.rule("C04.count", "COUNT adds exactly 1 per admitted row with a non-NULL argument")
+    R.rule("C04.percentile", "PERCENTILE picks rank floor(p * n) clamped to n - 1 with one and the same sample count n")
+    _percentile_rank(R, "C04.percentile")
     _rect(R, "C04.rect")
     _transform(R)
     # ---- order
@@ -447,8 +449,14 @@ def run_c15(R):
     names = [short(c.name) for c in uv.calls]
     srt = [c for c in uv.calls if short(c.name).endswith("<impl [T]>::sort") or short(c.name).endswith("sort_unstable")]
     gt = [c for c in uv.calls if short(c.name) == "core::slice::<impl [T]>::get"]
+    ga = P.adts.get(AGG + "GroupAggregator") or {"variants": []}
+    pv_tys = [fl["ty"] for v in ga["variants"] if v["name"] == "Percentile" for fl in v["fields"]]
+    ordered = any(t.startswith("alloc::collections::btree::") for t in pv_tys)
     if srt and gt and uv.dominates(srt[0].bb, gt[0].bb):
         R.ok("C15.containers", "percentile", "values.sort() dominates the index lookup", srt[0].loc())
+    elif ordered and not any(t.startswith("alloc::vec::Vec") for t in pv_tys):
+        R.ok("C15.containers", "percentile", "the samples are kept in an ordered map (%s): arrival order is erased by construction" % pv_tys[0][:60],
+             uv.loc())
     else:
         R.violation("C15.containers", "percentile", "PERCENTILE indexes the collected values without sorting them first", [uv.loc()])
     up = R.need_fn(AGG + "GroupAggregator::update")
@@ -505,3 +513,58 @@ def _update_state(R):
             R.ok("C15.state", key, "no branch depends on a non-group field (engine fields: %s)" % sorted(group_fields | other_fields), f.loc(),
                  nontrivial=(n <= 3))
     R.floor("C15.state", 4)
+
+
+def _count_descr(f, op, depth=8):
+    """what a count operand measures: (callee, receiver fields / type) of the call it comes from, or the local it is"""
+    out = []
+    for o in F.origins(f, op, depth=depth):
+        if o.kind == "call":
+            c = o.call
+            recv = (F.source_fields(f, c.args[0], depth=6) or ["?"])[-1] if c.args and c.args[0]["k"] in ("copy", "move") else "?"
+            out.append("%s(%s)" % (short(c.name).split("::")[-1] + "@" + short(c.name).split("::")[-2], recv))
+        elif o.kind in ("arg", "place") and o.place is not None:
+            out.append("local:%s" % (f.local_name(o.place["l"]) or o.place["l"]))
+        elif o.kind == "const":
+            out.append("const")
+        else:
+            out.append(o.kind)
+    return sorted(set(out))
+
+
+def _percentile_rank(R, rid):
+    """the rank `(p * N) as usize` is clamped by `M - 1`: N and M must measure the same thing (the number of collected samples)"""
+    P = R.prog
+    f = R.need_fn(AGG + "GroupAggregator::update_value")
+    muls = [(i, s) for i, s in f.stmts() if s["rv"]["k"] == "binop" and s["rv"]["op"] == "Mul" and s["rv"].get("lty") == "f64"]
+    mins = [c for c in f.calls if re.search(r"(^core::cmp::Ord::min$|as core::cmp::Ord>::min$|^core::cmp::min$)", short(c.name))]
+    done = False
+    for c in mins:
+        # one side: the scaled rank (a FloatToInt cast of a product), other side: M - 1
+        sides = [F.origins(f, a, depth=6, through_calls=False) for a in c.args[:2]]
+        rank_side = [k for k, os_ in enumerate(sides) if any(o.kind == "cast" and o.extra.startswith("f64->") for o in os_)]
+        if len(rank_side) != 1:
+            continue
+        bound = sides[1 - rank_side[0]]
+        m_desc = None
+        for o in bound:
+            if o.kind == "call" and re.search(r"::(saturating_sub|checked_sub|wrapping_sub)$", short(o.call.name)):
+                m_desc = _count_descr(f, o.call.args[0])
+            elif o.kind == "binop" and o.extra in ("Sub", "SubWithOverflow"):
+                m_desc = _count_descr(f, o.place["l"])
+        n_desc = None
+        for i, s in muls:
+            for side in (s["rv"]["l"], s["rv"]["r"]):
+                for o in F.origins(f, side, depth=6, through_calls=False):
+                    if o.kind == "cast" and o.extra.endswith("->f64") and o.place is not None:
+                        n_desc = _count_descr(f, o.place)
+        if m_desc is None or n_desc is None:
+            continue
+        done = True
+        if m_desc == n_desc:
+            R.ok(rid, "percentile|rank", "rank scaled and clamped by the same count %s" % n_desc, c.loc())
+        else:
+            R.violation(rid, "percentile|rank", "PERCENTILE scales its rank by %s but clamps it by %s - 1: when the two differ (repeated values) "
+                                                "the rank is cut short and a too-small element is returned" % (n_desc, m_desc), [c.loc()])
+    if not done:
+        R.note("%s: PERCENTILE rank clamp not in the `(p * n) as usize).min(m - 1)` form; the n = m agreement is not decided" % rid)
